@@ -456,9 +456,9 @@ var combinators = func() []string {
 func main() {
 	perBatch := func(tier string) int {
 		if tier == "thorough" {
-			return 8000
+			return 40000
 		}
-		return 1000
+		return 8000
 	}
 	vrt.Main(vrt.Config{
 		Property: "C18",
